@@ -23,6 +23,9 @@ def jobs(rng, thorough):
 def run(ctx: core.Ctx):
     ctx.lean_stage(extra_props=("C06b",))
     b2check.run_b2(ctx, jobs, ["C07"], label="api initialisation")
+    T = core.tables()
+    b2check.run_b2(ctx, lambda rng, th: [(gen.api_reinit(rng, T), rng.randrange(10 ** 9), 0) for _ in range(3000 if th else 60)], ["C07"],
+                   label="second initialize() on the same object after a failed first attempt, monitor only", accept=False)
     ctx.info["rule"] = ("the 12 recordings (harness's own recorded-device simulator) and synthetic devices: any subset of the optional subunits, random subsets of functions with valid values, multi-value answers, unsolicited updates during start-up, latencies below the time-outs, first probe swallowed; each under a seeded schedule, some with extra line-level preemptions; a case = one schedule; non-trivial = distinct (spec, seed)")
     return ctx.finish()
 
